@@ -271,7 +271,8 @@ func (in *Interp) conv(tDst, tSrc types.Type, x value) value {
 					out = append(out, r)
 					i += n
 				}
-				return out
+				// no spare capacity: code must not rely on what the runtime happens to allocate
+				return out[:len(out):len(out)]
 			}
 			var out []value
 			for _, r := range cs {
@@ -280,7 +281,7 @@ func (in *Interp) conv(tDst, tSrc types.Type, x value) value {
 			if out == nil {
 				out = []value{}
 			}
-			return out
+			return out[:len(out):len(out)]
 		}
 		return x
 	case *types.Basic:
